@@ -165,3 +165,25 @@ def install_quiet():
         LARGE_FILE_SIZE = H.LargeFileHashingCallback.LARGE_FILE_SIZE
 
     H.LargeFileHashingCallback = QuietLarge
+
+
+class PermExecutor:
+    """Stand-in for dvc_objects' ThreadPoolExecutor where the code under analysis uses imap_unordered: tasks run serially and
+    the results are yielded in a chosen permutation (its documented contract: completion order is arbitrary)."""
+
+    reverse = False
+
+    def __init__(self, max_workers=None, **kw):
+        self.max_workers = max_workers
+
+    def __enter__(self):
+        return self
+
+    def __exit__(self, *a):
+        return False
+
+    def imap_unordered(self, fn, *iterables):
+        res = [fn(*args) for args in zip(*iterables)]
+        if PermExecutor.reverse:
+            res.reverse()
+        yield from res
